@@ -150,9 +150,11 @@ ProxyProtocol::One::Parse(const SBuf &buf)
     static const SBuf protoUnknown("UNKNOWN");
     static const SBuf protoTcp("TCP");
 
-    if (interiorTok.skip(protoTcp))
+    if (interiorTok.skip(protoTcp)) {
         ParseAddresses(interiorTok, header);
-    else if (interiorTok.skip(protoUnknown))
+        if (!interiorTok.atEnd())
+            throw TexcHere("PROXY/1.0 error: garbage after destination port");
+    } else if (interiorTok.skip(protoUnknown))
         header->ignoreAddresses();
     else
         throw TexcHere("PROXY/1.0 error: invalid INET protocol or family");
